@@ -257,5 +257,19 @@ CHECKS["C16"] = {
     "technique": "exhaustive small-scope enumeration of (parent size, offset, count) incl. values near SIZE_MAX x static/dynamic extents x checking modes against sub-range arithmetic",
 }
 
+CHECKS["C19"] = {
+    "engine": "E3-exhaustive-enumerator",
+    "category": "exploration",
+    "text": "Configuration enumeration, the 'execution' being a compiler / linker / process run: every public header (taken from the directory listing, 33 today) x {single include, double include} x {C++14,17,20} x "
+            "{exceptions, -fno-exceptions} x {g++, clang++} as a generated translation unit that includes only that header and then uses one facility of it (792 compilations in thorough; quick: all 12 configurations for the "
+            "single include and 2 for the double include); thorough additionally all 1056 ordered header pairs in every configuration; two translation units that include all headers in opposite orders and call or odr-use "
+            "every non-template function are linked as 1-TU and 2-TU programs and run (duplicate-definition / undefined-symbol detection, nm on a -fkeep-inline-functions object); 17 error-path scenarios are run in their own "
+            "process with -fno-exceptions and must die inside the failing call instead of continuing.",
+    "design_ref": "DESIGN.md section 3, C19",
+    "note": "Trusted: the installed g++ 12 / clang++ 14 with libstdc++ (a missing include that libstdc++ supplies transitively is invisible). xjson.hpp is in scope with the nlohmann headers found in the sandbox. "
+            "Quick is a fixed sub-space of the matrix; a budget cut is reported as a cap.",
+    "technique": "exhaustive configuration enumeration (header x include form x standard x exception mode x compiler; header pairs; multi-TU links; error-path processes) with compiler, linker and exit status as oracle",
+}
+
 NOT_YET = "check not built yet in this round; design in DESIGN.md section 3"
 NOT_APPLICABLE = {}
